@@ -1208,6 +1208,12 @@ func (c *SpecCtx) call(e *Expr, pos bool) *Term {
 			}
 		}
 		c.fail("startTrace(%s): loop not active", e.Args[0].Name)
+	case "exhausted":
+		// in a `loop N exit` clause: the loop is left through its own condition (not through a break)
+		if t, ok := c.vars["$exhausted"]; ok {
+			return t
+		}
+		c.fail("exhausted() outside a loop exit clause")
 	case "startVal":
 		// startVal(n, v): the value local variable v had at the head of loop n, in the current iteration
 		if c.frame == nil || e.Args[0].Op != "int" || e.Args[1].Op != "id" {
